@@ -841,7 +841,15 @@ func (a *Act) tailrecOblige(st *State, li *loopInfo, outT Term, what string) {
 		// (reads made while unfolding the relation add no well-formedness assumptions: the
 		// compiled relation reads through bound variables and has none either)
 		tr.quietReads = true
+		if ts.cont != nil {
+			if cc, ok := ts.cont.expr.(*ast.CallExpr); ok {
+				if id, ok := cc.Fun.(*ast.Ident); ok {
+					tr.tailFn = id.Name
+				}
+			}
+		}
 		gt = e.tree(relCall)
+		tr.tailFn = ""
 		tr.quietReads = false
 	}
 	for _, m := range errs {
@@ -894,6 +902,21 @@ func (a *Act) tailrecOblige(st *State, li *loopInfo, outT Term, what string) {
 			for _, w := range ws {
 				ways = append(ways, way{And(st.reach, w.guard), w.label})
 			}
+		}
+	}
+	if what == "return" && gt != nil {
+		// tail positions continue the loop: at a return no case of the relation that defines the
+		// outcome as the evaluation of another form (a tail leaf) may be reachable
+		var paths []Term
+		gt.tailPaths(nil, &paths)
+		if len(paths) > 0 {
+			neg := make([]Term, len(paths))
+			for i, p := range paths {
+				neg[i] = Not(p)
+			}
+			base := fmt.Sprintf("%s/tco/return-in-tail-position@«%s»", fname, normSrc(src))
+			tr.oblCount[base]++
+			tr.obls = append(tr.obls, &Obligation{Name: fmt.Sprintf("%s#%d", base, tr.oblCount[base]), Kind: "tco", Fn: fname, Pos: loc, Src: "no return where the definition continues with a form in tail position", Guard: st.reach, Goal: And(neg...)})
 		}
 	}
 	for _, w := range ways {
